@@ -27,7 +27,7 @@ pub struct CompileOutcome {
 
 pub fn compile_budgeted(cps: &[u32], fl: Fl, no_opt: bool) -> CompileOutcome {
     regress::verif::set_fuel(tick_budget(cps.len()));
-    let r = catch_unwind(AssertUnwindSafe(|| regress::Regex::from_unicode(cps.iter().copied(), fl.regress(no_opt)).map(|_| ())));
+    let r = catch_unwind(AssertUnwindSafe(|| construct(cps, fl, no_opt).map(|_| ())));
     let rep = regress::verif::report();
     regress::verif::set_fuel(u64::MAX);
     match r {
@@ -222,17 +222,68 @@ fn check_fam(case: &Case, l: &mut Local) -> Verdict {
     }
 }
 
+// ---- every code point in every syntactic role whose handling depends on the code point (case tables, ID_Start /
+// ID_Continue, identity escapes, byte-literal lowering)
+const SWEEP_BLOCK: u32 = 0x400;
+
+fn sweep_cases(t: Tier) -> Vec<Case> {
+    (0..0x110000 / SWEEP_BLOCK).map(|b| Case { x: json!({"block": b, "deep": t == Tier::Thorough}), ..Default::default() }).collect()
+}
+
+fn gen_sweep(src: &mut Src, _t: Tier) -> Case {
+    Case { x: json!({"block": src.below(0x110000 / SWEEP_BLOCK), "deep": true}), ..Default::default() }
+}
+
+fn check_sweep(case: &Case, l: &mut Local) -> Verdict {
+    let b = case.x.get("block").and_then(|b| b.as_u64()).unwrap_or(0) as u32;
+    // a replay of a shrunk failure carries the exact pattern
+    if !case.pat.is_empty() {
+        return check(case, l);
+    }
+    let thorough = case.x.get("deep").and_then(|b| b.as_bool()).unwrap_or(false);
+    for c in b * SWEEP_BLOCK..(b + 1) * SWEEP_BLOCK {
+        let shapes_i: Vec<Vec<u32>> = vec![vec![c], vec![0x5B, 0x5E, c, 0x5D], vec![c, c], vec![0x5B, c, 0x2D, c.saturating_add(1).min(0x10FFFF), 0x5D]];
+        let shapes_n: Vec<Vec<u32>> = vec![vec![0x28, 0x3F, 0x3C, c, 0x3E, 0x2E, 0x29], vec![0x5C, c], vec![0x5B, 0x5C, c, 0x5D], vec![0x28, 0x3F, 0x3C, 0x61, c, 0x3E, 0x29, 0x5C, 0x6B, 0x3C, 0x61, c, 0x3E]];
+        for (flags, shapes) in [(&["i", "iu", "iv"][..], &shapes_i), (&["", "u", "v"][..], &shapes_n)] {
+            for f in flags {
+                let fl = Fl::parse(f);
+                for pat in shapes {
+                    for no_opt in [false, true] {
+                        if no_opt && !thorough {
+                            continue;
+                        }
+                        let o = compile_budgeted(pat, fl, no_opt);
+                        if o.exhausted || o.panic.is_some() {
+                            return Verdict::Fail(format!(
+                                "/{}/{} ({}): {}",
+                                show(pat),
+                                f,
+                                if no_opt { "no_opt" } else { "opt" },
+                                o.panic.map(|p| format!("compilation panicked: {}", p)).unwrap_or_else(|| "compilation did not finish within its step budget".into())
+                            ));
+                        }
+                        l.class(if o.ok { "accepted" } else { "rejected" });
+                    }
+                }
+            }
+        }
+    }
+    Verdict::Pass { nontrivial: true }
+}
+
+pub static V_SWEEP: Variant = Variant { name: "code_point_sweep", choice_len: 1, gen: gen_sweep, check: check_sweep };
 pub static V_RAW: Variant = Variant { name: "raw_code_points", choice_len: 80, gen: gen_raw, check };
 pub static V_SOUP: Variant = Variant { name: "token_soup", choice_len: 60, gen: gen_soup_case, check };
 pub static V_MUT: Variant = Variant { name: "mutated_valid", choice_len: 400, gen: gen_mutated, check };
 pub static V_FAM: Variant = Variant { name: "adversarial_families", choice_len: 1, gen: gen_fam, check: check_fam };
 
 pub fn variants() -> Vec<&'static Variant> {
-    vec![&V_RAW, &V_SOUP, &V_MUT, &V_FAM]
+    vec![&V_RAW, &V_SOUP, &V_MUT, &V_FAM, &V_SWEEP]
 }
 
 pub fn run(ctx: &Ctx) -> i32 {
     ctx.run_list(&V_FAM, &fam_cases(ctx.tier));
+    ctx.run_list(&V_SWEEP, &sweep_cases(ctx.tier));
     ctx.run_variant(&V_RAW, ctx.scale(300_000, 5_000_000));
     ctx.run_variant(&V_SOUP, ctx.scale(600_000, 10_000_000));
     ctx.run_variant(&V_MUT, ctx.scale(300_000, 5_000_000));
@@ -242,7 +293,7 @@ pub fn run(ctx: &Ctx) -> i32 {
     }
     ctx.finish(
         "exploration",
-        "(i) arbitrary code point sequences <= 64 incl. surrogates (never above 0x10FFFF); (ii) token soup: 1-10 (14) fragments from ~230 syntax fragments (every bracket, quantifier shape, escape family, group opener, v-mode operator, property names); (iii) valid generated patterns mutated by insert/delete/duplicate/swap/replace and compiled under another mode; (iv) 20 size-parametric adversarial families (alternatives, nesting of groups/lookarounds/classes/modifiers, group/loop counts, class members, long literals, huge counts, count towers, duplicate names, string sets) at sizes up to 70k (300k thorough), compiled on a thread with the default 2 MiB stack. All flag sets, opt and no_opt. Oracle: from_unicode returns Ok or Err - no panic (catch_unwind), no process death (supervisor + case journal), within a deterministic tick budget A + B*n*log2(n+2) (hook). Non-trivial = the input contains one of ( [ { \\ | * + ? (families: always).",
+        "(o) EVERY code point 0..=0x10FFFF (surrogates included) in every role whose handling depends on the code point: as a literal, doubled, in a negated class and as a range start under i / iu / iv; as a group name, in a \\k reference, as an identity escape and as a class escape under - / u / v; (i) arbitrary code point sequences <= 64 incl. surrogates (never above 0x10FFFF); (ii) token soup: 1-10 (14) fragments from ~230 syntax fragments (every bracket, quantifier shape, escape family, group opener, v-mode operator, property names); (iii) valid generated patterns mutated by insert/delete/duplicate/swap/replace and compiled under another mode; (iv) 20 size-parametric adversarial families (alternatives, nesting of groups/lookarounds/classes/modifiers, group/loop counts, class members, long literals, huge counts, count towers, duplicate names, string sets) at sizes up to 70k (300k thorough), compiled on a thread with the default 2 MiB stack. All flag sets, opt and no_opt. Oracle: from_unicode returns Ok or Err - no panic (catch_unwind), no process death (supervisor + case journal), within a deterministic tick budget A + B*n*log2(n+2) (hook). Non-trivial = the input contains one of ( [ { \\ | * + ? (families: always).",
         &["hook: compile-time ticks in the parser's input primitives and term loop, optimizer fixpoints and emitter loop; a loop that never touches those is only caught by the supervisor's wall-clock watchdog (reported INCONCLUSIVE, exit 2, never as a violation)", "stack exhaustion is judged on the release build with a 2 MiB thread stack"],
     )
 }
